@@ -565,12 +565,16 @@ func (root *Root) validateDirUse(where string, loc Location, du *DirectiveUse) (
 		// here. A Var is also allowed.
 		if _, ok := av.Value.(Var); !ok {
 			if co, _ := a.Type.(InCoercer); co != nil {
-				if v, err := co.CoerceIn(av.Value); err != nil {
+				// Validation is repeated with every load, also loads that fail,
+				// and input coercion fills in field defaults in place so a copy
+				// is checked.
+				if v, err := co.CoerceIn(copyDefault(av.Value)); err != nil {
 					errs = append(errs, fmt.Errorf("%w at %d:%d", err, av.line, av.col))
-				} else {
+				} else if !isCollection(v) {
 					// Might as well replace the coerced value since it is really
-					// what is needed. Lists and input objects can not be compared
-					// so there is no check for a change.
+					// what is needed. Lists and input objects stay as written,
+					// coercing them again would nest the defaults deeper
+					// each time.
 					av.Value = v
 				}
 			}
